@@ -198,7 +198,7 @@ Proof.
     + (* same as previous *)
       assert (E : rd_s 2 Big d (zlen pre) = Ok 2).
       { unfold d. cbn [enc_rec]. apply rd_s2_at; [reflexivity | unfold in16; lia]. }
-      rewrite E. cbn [bind Z.eqb Pos.eqb states apply_rec mapM].
+      rewrite E. cbn [bind Z.ltb Z.compare Pos.compare Pos.compare_cont Z.eqb Pos.eqb states apply_rec mapM].
       replace (zlen pre + 2) with (zlen (pre ++ enc_rec RSame)) by (rewrite zlen_app; cbn [enc_rec]; rewrite zlen_pack; reflexivity).
       destruct acc as [|last acc'].
       * destruct (parse_vwsc_channels cp buf) as [fr| e |] eqn:P; cbn [bind]; try reflexivity.
@@ -214,6 +214,7 @@ Proof.
       assert (E : rd_s 2 Big d (zlen pre) = Ok (2 + zlen (enc_body ps))).
       { unfold d. cbn [enc_rec]. repeat rewrite <- app_assoc. apply rd_s2_at; [reflexivity | exact Hsz]. }
       rewrite E. cbn [bind].
+      destruct (Z.ltb_spec (2 + zlen (enc_body ps)) 2); [lia|].
       destruct (Z.eqb_spec (2 + zlen (enc_body ps)) 2); [lia|].
       replace (2 + zlen (enc_body ps) - 2) with (zlen (enc_body ps)) by lia.
       destruct (Z.gtb_spec (zlen (enc_body ps)) 0); [|lia].
@@ -270,10 +271,10 @@ Proof.
   cbn [Z.eqb Pos.eqb negb].
   assert (Hz : zlen (H ++ enc_recs rs) = 20 + zlen (enc_recs rs)) by (rewrite zlen_app, HL; reflexivity).
   rewrite Hz, Z.eqb_refl. cbn [negb].
-  destruct (Z.ltb_spec (cc * fs) 0); [destruct Hfs; subst; lia|].
   assert (Hcp : (if fs =? 20 then Ok D4 else if fs =? 24 then Ok D5 else Err EKey) = Ok (parser_of fs)).
   { unfold parser_of. destruct Hfs; subst; reflexivity. }
   rewrite Hcp. cbn [bind].
+  destruct (Z.ltb_spec (cc * fs) 0); [destruct Hfs; subst; lia|].
   rewrite <- Hz. replace 20 with (zlen H) at 2 by exact HL.
   rewrite (record_loop_enc (parser_of fs) rs _ H _ [] (cc * fs)).
   - cbn [rev app]. reflexivity.
